@@ -1,0 +1,362 @@
+//go:build verif
+// +build verif
+
+package bfe_http2
+
+// Verification hook for property C35 (HTTP/2 stream state machine is enforced without internal failures).
+// Add-only, compiled only with build tag "verif"; used by /verif/harness/cmd/c35.
+//
+// VerifC35 is a REAL serverConn (built like Server.ServeConn builds it) whose serve loop is replaced by
+// the harness: every method below is one iteration of serverConn.serve's select, executed on the caller's
+// goroutine, so that the interleaving of client frames, handler completion and frame-write completion is
+// exactly the scripted one.  The harness also plays the writeFrames goroutine: control frames are written
+// and acknowledged at once, a handler's stream frame (response HEADERS with END_STREAM, handlerPanicRST)
+// stays "in flight" until Wrote() is called.  Client frames are serialised by a real Framer, parsed by the
+// connection's own Framer (ReadMetaHeaders) and dispatched through processFrameFromReader.
+
+import (
+	"bytes"
+	"fmt"
+	"net"
+	"sort"
+	"strings"
+	"sync"
+	"time"
+
+	"github.com/baidu/go-lib/gotrack"
+	http "github.com/bfenetworks/bfe/bfe_http"
+	"github.com/bfenetworks/bfe/bfe_http2/hpack"
+)
+
+type verifC35Conn struct{}
+
+type verifC35Addr struct{}
+
+func (verifC35Addr) Network() string { return "verif" }
+func (verifC35Addr) String() string  { return "verif" }
+
+func (verifC35Conn) Read(b []byte) (int, error)         { select {} }
+func (verifC35Conn) Write(b []byte) (int, error)        { return len(b), nil }
+func (verifC35Conn) Close() error                       { return nil }
+func (verifC35Conn) LocalAddr() net.Addr                { return verifC35Addr{} }
+func (verifC35Conn) RemoteAddr() net.Addr               { return verifC35Addr{} }
+func (verifC35Conn) SetDeadline(t time.Time) error      { return nil }
+func (verifC35Conn) SetReadDeadline(t time.Time) error  { return nil }
+func (verifC35Conn) SetWriteDeadline(t time.Time) error { return nil }
+
+type VerifC35 struct {
+	sc   *serverConn
+	rd   *bytes.Buffer // client -> server bytes
+	cf   *Framer       // client side writer
+	hbuf bytes.Buffer
+	henc *hpack.Encoder
+
+	mu       sync.Mutex
+	cmds     map[uint32]chan string // one per handler goroutine ever started (never removed: the goroutine may look it up late)
+	running  map[uint32]bool        // handler started and not yet told to end
+	held     *frameWriteMsg         // the handler frame in flight
+	rstCodes []ErrCode              // RST_STREAM frames written so far (by the harness acting as writer)
+}
+
+func NewVerifC35(maxStreams uint32) *VerifC35 {
+	v := &VerifC35{rd: new(bytes.Buffer), cmds: map[uint32]chan string{}, running: map[uint32]bool{}}
+	s := &Server{MaxConcurrentStreams: maxStreams}
+	hs := &http.Server{ReadTimeout: time.Hour, WriteTimeout: time.Hour, GracefulShutdownTimeout: time.Hour}
+	c := verifC35Conn{}
+	sc := &serverConn{
+		srv:              s,
+		hs:               hs,
+		conn:             c,
+		remoteAddrStr:    "verif",
+		bw:               newBufferedWriter(c),
+		streams:          make(map[uint32]*stream),
+		readFrameCh:      make(chan readFrameResult),
+		wantWriteFrameCh: make(chan frameWriteMsg, 8),
+		writeFrameCh:     make(chan frameWriteMsg, 1),
+		wroteFrameCh:     make(chan frameWriteResult, 1),
+		bodyReadCh:       make(chan bodyReadMsg),
+		doneServing:      make(chan struct{}),
+		advMaxStreams:    s.maxConcurrentStreams(nil),
+		writeSched:       writeScheduler{maxFrameSize: initialMaxFrameSize},
+		initialWindowSize: initialWindowSize,
+		headerTableSize:   initialHeaderTableSize,
+		serveG:            gotrack.NewGoroutineLock(),
+		pushEnabled:       true,
+
+		readClientAgainTimeout: defaultReadClientAgainTimeout,
+		timeoutEventCh:         make(chan timeoutEventElem, 8),
+		timeoutValueCh:         make(chan timeoutValueElem, 8),
+	}
+	sc.handler = http.HandlerFunc(v.handle)
+	sc.flow.add(initialWindowSize)
+	sc.inflow.add(initialWindowSize)
+	sc.hpackEncoder = hpack.NewEncoder(&sc.headerWriteBuf)
+	fr := NewFramer(sc.bw, v.rd)
+	fr.ReadMetaHeaders = hpack.NewDecoder(initialHeaderTableSize, nil)
+	fr.MaxHeaderListSize = sc.maxHeaderListSize()
+	fr.MaxHeaderUriSize = sc.maxHeaderUriSize()
+	fr.SetMaxReadFrameSize(s.maxReadFrameSize())
+	sc.framer = fr
+	v.sc = sc
+	v.cf = NewFramer(v.rd, nil)
+	v.cf.AllowIllegalWrites = true // the scripted client may use stream id 0
+	v.henc = hpack.NewEncoder(&v.hbuf)
+	// what serve() does before its loop, then the client's SETTINGS
+	sc.writeFrame(frameWriteMsg{write: writeSettings{{SettingMaxConcurrentStreams, sc.advMaxStreams}}})
+	sc.unackedSettings++
+	v.pump()
+	v.cf.WriteSettings()
+	v.readAndProcess()
+	return v
+}
+
+// handle is the http.Handler of every stream: it waits for the harness' command.
+func (v *VerifC35) handle(w http.ResponseWriter, r *http.Request) {
+	var id uint32
+	fmt.Sscanf(strings.TrimPrefix(r.URL.Path, "/"), "%d", &id)
+	v.mu.Lock()
+	ch := v.cmds[id]
+	v.mu.Unlock()
+	if ch == nil {
+		return
+	}
+	if cmd := <-ch; cmd == "panic" {
+		panic("scripted handler panic")
+	}
+}
+
+// pump plays the writeFrames goroutine.
+func (v *VerifC35) pump() {
+	for {
+		select {
+		case wm := <-v.sc.writeFrameCh:
+			if wm.stream != nil {
+				_, isPanic := wm.write.(handlerPanicRST)
+				if isPanic || endsStream(wm.write) {
+					if v.held != nil {
+						panic("verif harness: two stream frames in flight")
+					}
+					w := wm
+					v.held = &w
+					return
+				}
+			}
+			var err error
+			switch w := wm.write.(type) {
+			case *writeGoAway: // its writeFrame sleeps and closes the conn; nothing to observe here
+			case StreamError:
+				v.rstCodes = append(v.rstCodes, w.Code)
+				err = wm.write.writeFrame(v.sc)
+			default:
+				err = wm.write.writeFrame(v.sc)
+			}
+			v.sc.wroteFrame(frameWriteResult{wm, err})
+		default:
+			return
+		}
+	}
+}
+
+func (v *VerifC35) rstTotal() (int, ErrCode) {
+	n := len(v.rstCodes)
+	var last ErrCode
+	if n > 0 {
+		last = v.rstCodes[n-1]
+	}
+	for _, wm := range v.sc.writeSched.zero.s {
+		if se, ok := wm.write.(StreamError); ok {
+			n++
+			last = se.Code
+		}
+	}
+	return n, last
+}
+
+// outcome runs f (one serve-loop iteration) and classifies what the connection did.
+func (v *VerifC35) outcome(f func() bool) (res string) {
+	defer func() {
+		if e := recover(); e != nil {
+			msg := fmt.Sprint(e)
+			switch {
+			case strings.Contains(msg, "nil pointer"):
+				res = "panic:nil"
+			case strings.Contains(msg, "can't close stream"):
+				res = "panic:close-closed"
+			case strings.Contains(msg, "on a closed stream"):
+				res = "panic:write-closed"
+			case strings.Contains(msg, "half-closed-local"):
+				res = "panic:write-hcl"
+			case strings.Contains(msg, "should have a body"):
+				res = "panic:no-body"
+			default:
+				res = "panic:other:" + strings.ReplaceAll(msg, " ", "_")
+			}
+		}
+	}()
+	n0, _ := v.rstTotal()
+	wasGoAway := v.sc.inGoAway
+	alive := f()
+	v.pump()
+	n1, code := v.rstTotal()
+	switch {
+	case !alive:
+		return "close"
+	case !wasGoAway && v.sc.inGoAway:
+		return fmt.Sprintf("ga:%d", uint32(v.sc.goAwayCode))
+	case n1 > n0:
+		return fmt.Sprintf("rst:%d", uint32(code))
+	}
+	return "ok"
+}
+
+func (v *VerifC35) readAndProcess() bool {
+	f, err := v.sc.framer.ReadFrame()
+	return v.sc.processFrameFromReader(readFrameResult{f, err, func() {}})
+}
+
+// Headers sends HEADERS (END_HEADERS) on stream id.  kind: "ok" a GET/POST request for path /<id>,
+// "cl<n>" the same with content-length n, "bad" a request without :method, "tr" a trailer block (no pseudo fields).
+func (v *VerifC35) Headers(id uint32, end bool, kind string) string {
+	v.hbuf.Reset()
+	w := func(k, val string) { v.henc.WriteField(hpack.HeaderField{Name: k, Value: val}) }
+	switch {
+	case kind == "tr":
+		w("x-trailer", "1")
+	case kind == "bad":
+		w(":path", fmt.Sprintf("/%d", id))
+		w(":scheme", "http")
+	default:
+		m := "POST"
+		if end {
+			m = "GET"
+		}
+		w(":method", m)
+		w(":path", fmt.Sprintf("/%d", id))
+		w(":scheme", "http")
+		if strings.HasPrefix(kind, "cl") {
+			w("content-length", kind[2:])
+		}
+	}
+	created := false
+	v.mu.Lock()
+	if _, live := v.sc.streams[id]; !live && !v.running[id] {
+		v.cmds[id] = make(chan string, 1) // in place before the handler goroutine can look it up
+		v.running[id] = true
+		created = true
+	}
+	v.mu.Unlock()
+	v.cf.WriteHeaders(HeadersFrameParam{StreamID: id, BlockFragment: v.hbuf.Bytes(), EndStream: end, EndHeaders: true})
+	res := v.outcome(v.readAndProcess)
+	if created && res != "ok" { // no handler goroutine was started
+		v.ForgetHandler(id)
+	}
+	return res
+}
+
+func (v *VerifC35) Data(id uint32, n int, end bool) string {
+	v.cf.WriteData(id, end, bytes.Repeat([]byte{'d'}, n))
+	return v.outcome(v.readAndProcess)
+}
+
+func (v *VerifC35) Rst(id uint32) string {
+	v.cf.WriteRSTStream(id, ErrCodeCancel)
+	return v.outcome(v.readAndProcess)
+}
+
+// HandlerEnds lets the handler of stream id return (or panic); the frame it produces is taken from
+// wantWriteFrameCh and given to writeFrame, as the serve loop does.
+func (v *VerifC35) HandlerEnds(id uint32, doPanic bool) string {
+	if v.held != nil {
+		return "busy"
+	}
+	v.mu.Lock()
+	ch := v.cmds[id]
+	run := v.running[id]
+	v.mu.Unlock()
+	if ch == nil || !run {
+		return "nohandler"
+	}
+	v.ForgetHandler(id)
+	if doPanic {
+		ch <- "panic"
+	} else {
+		ch <- "return"
+	}
+	var wm frameWriteMsg
+	select {
+	case wm = <-v.sc.wantWriteFrameCh:
+	case <-time.After(10 * time.Second):
+		return "HANG"
+	}
+	r := v.outcome(func() bool { v.sc.writeFrame(wm); return true })
+	if r == "ok" {
+		if v.held != nil {
+			return "held"
+		}
+		return "skip"
+	}
+	return r
+}
+
+// Wrote completes the frame in flight (the writeFrames goroutine reports on wroteFrameCh).
+func (v *VerifC35) Wrote() string {
+	if v.held == nil {
+		return "idle"
+	}
+	wm := *v.held
+	v.held = nil
+	return v.outcome(func() bool {
+		err := wm.write.writeFrame(v.sc)
+		v.sc.wroteFrame(frameWriteResult{wm, err})
+		return true
+	})
+}
+
+// ForgetHandler notes that stream id has no handler waiting for a command (none started, or it was told to end).
+func (v *VerifC35) ForgetHandler(id uint32) {
+	v.mu.Lock()
+	delete(v.running, id)
+	v.mu.Unlock()
+}
+
+// State renders maxStreamID, curOpenStreams and the live streams.
+func (v *VerifC35) State() string {
+	var ids []int
+	for id := range v.sc.streams {
+		ids = append(ids, int(id))
+	}
+	sort.Ints(ids)
+	var parts []string
+	for _, id := range ids {
+		st := v.sc.streams[uint32(id)]
+		s := "?"
+		switch st.state {
+		case stateOpen:
+			s = "o"
+		case stateHalfClosedRemote:
+			s = "r"
+		case stateHalfClosedLocal:
+			s = "l"
+		case stateClosed:
+			s = "c"
+		}
+		if st.gotTrailerHeader {
+			s += "t"
+		}
+		parts = append(parts, fmt.Sprintf("%d%s", id, s))
+	}
+	return fmt.Sprintf("%d:%d:%s", v.sc.maxStreamID, v.sc.curOpenStreams, strings.Join(parts, ","))
+}
+
+// Close releases the handler goroutines.
+func (v *VerifC35) Close() {
+	close(v.sc.doneServing)
+	v.mu.Lock()
+	for _, ch := range v.cmds {
+		select {
+		case ch <- "return":
+		default:
+		}
+	}
+	v.mu.Unlock()
+}
